@@ -978,6 +978,14 @@ class TorsionRegularizer(keras.regularizers.Regularizer):
         amount of regularization for the interaction term between two dimensions
         is the product of the corresponding per dimension amounts.
     """
+    lattice_lib.verify_hyperparameters(
+        lattice_sizes=lattice_sizes,
+        regularization_amount=l1,
+        regularization_info="l1")
+    lattice_lib.verify_hyperparameters(
+        lattice_sizes=lattice_sizes,
+        regularization_amount=l2,
+        regularization_info="l2")
     self.lattice_sizes = lattice_sizes
     self.l1 = l1
     self.l2 = l2
